@@ -237,6 +237,29 @@ Example send_end_wrap_needs_bound :
   send_end (two32 - 1) (mkword (maxi + 2) 0) = (0, SeRet (maxi + 2)).
 Proof. vm_compute. reflexivity. Qed.
 
+(* load and CAS kept apart: Send returns iff the loaded word validates AND the word is still the loaded one; a
+   word that changed in between (which the contract excludes: Proofs/CasterAbs.v, S7 -> S7c) is reported. *)
+Theorem send_end_cas_spec r wl wc (Hr : 0 <= r <= maxi) (Hw : 0 <= wl < two64) :
+  (hi wl <= r /\ lo wl = hi wl + maxi /\ wc = wl -> send_end_cas r wl wc = (0, SeRet (hi wl)))
+  /\ (~ (hi wl <= r /\ lo wl = hi wl + maxi /\ wc = wl) -> send_end_cas r wl wc = (wc, SePanic)).
+Proof.
+  destruct (send_end_spec r wl Hr Hw) as [HOk HBad]. unfold send_end_cas. split.
+  - intros (A & B & ->). rewrite HOk by tauto. cbn [snd]. rewrite Z.eqb_refl. reflexivity.
+  - intros HN. destruct (Z_le_dec (hi wl) r) as [A|A]; [|rewrite HBad by tauto; reflexivity].
+    destruct (Z.eq_dec (lo wl) (hi wl + maxi)) as [B|B]; [|rewrite HBad by tauto; reflexivity].
+    rewrite HOk by tauto. cbn [snd]. destruct (wc =? wl) eqn:E; [|reflexivity].
+    exfalso. apply HN. repeat split; try assumption. lia.
+Qed.
+Lemma send_end_cas_same r w : send_end_cas r w w = send_end r w.
+Proof.
+  unfold send_end_cas, send_end.
+  destruct ((r <? hi w) || negb (lo w =? u32 (hi w + maxi))); cbn [snd]; [reflexivity|].
+  rewrite Z.eqb_refl. reflexivity.
+Qed.
+Example ex_send_end_cas_changed :
+  send_end_cas 2 (mkword 2 (2 + maxi)) (mkword 1 (1 + maxi)) = (mkword 1 (1 + maxi), SePanic).
+Proof. vm_compute. reflexivity. Qed.
+
 Corollary send_invalid_panics w : 0 <= w < two64 -> ~ valid w -> send_begin w = (w, SbPanic).
 Proof.
   intros Hw Hv. destruct (send_begin_spec w Hw) as (_ & _ & H2). apply H2.
@@ -478,6 +501,7 @@ Print Assumptions add_spec_word.
 Print Assumptions add_ret_inv.
 Print Assumptions send_begin_spec.
 Print Assumptions send_end_spec.
+Print Assumptions send_end_cas_spec.
 Print Assumptions send_roundtrip.
 Print Assumptions sticky_refuted.
 Print Assumptions sticky_while_invalid.
